@@ -161,6 +161,122 @@ pub proof fn lemma_closed_no_path_out(es: Set<(usize, usize)>, s: Set<usize>, a:
     lemma_path_closed(es, f, a, x);
 }
 
+/// t is a spanning out-tree (arborescence) of the part of (vs, es) reachable from root:
+/// its vertices are exactly the reachable ones, its edges are edges of the graph, the root has no
+/// tree predecessor, every other tree vertex has exactly one, and every tree vertex is reachable
+/// from the root inside the tree
+pub open spec fn is_spanning_tree_of(t: &Graph<NullVertex, NullEdge>, es: Set<(usize, usize)>, root: usize) -> bool {
+    &&& t.graph_wf()
+    &&& forall|v: usize| #![trigger t.vertices@.contains_key(v)] t.vertices@.contains_key(v) <==> path(es, root, v)
+    &&& forall|e: (usize, usize)| #![trigger t.edges@.contains_key(e)] t.edges@.contains_key(e) ==> es.contains(e)
+    &&& t.predecessors@[root]@.len() == 0
+    &&& forall|v: usize| #![trigger t.predecessors@[v]] t.vertices@.contains_key(v) && v != root ==> t.predecessors@[v]@.len() == 1
+    &&& forall|v: usize| #![trigger t.vertices@.contains_key(v)] t.vertices@.contains_key(v) ==> path(t.edges@.dom(), root, v)
+}
+
+/// the part of the spanning-tree property that holds while the tree is being built
+pub open spec fn tree_inv(t: &Graph<NullVertex, NullEdge>, vs: Set<usize>, es: Set<(usize, usize)>, root: usize) -> bool {
+    &&& t.graph_wf()
+    &&& t.vertices@.contains_key(root)
+    &&& t.vertices@.dom().subset_of(vs)
+    &&& forall|v: usize| #![trigger t.vertices@.contains_key(v)] t.vertices@.contains_key(v) ==> path(es, root, v)
+    &&& forall|e: (usize, usize)| #![trigger t.edges@.contains_key(e)] t.edges@.contains_key(e) ==> es.contains(e)
+    &&& t.predecessors@[root]@.len() == 0
+    &&& forall|v: usize| #![trigger t.predecessors@[v]] t.vertices@.contains_key(v) && v != root ==> t.predecessors@[v]@.len() == 1
+    &&& forall|v: usize| #![trigger t.vertices@.contains_key(v)] t.vertices@.contains_key(v) ==> path(t.edges@.dom(), root, v)
+}
+
+/// injective encoding of a pair of machine words as one integer below 2^128 (termination measure
+/// of the fixpoint iteration in compute_predecessors: the set of codes only grows and is bounded)
+pub open spec fn pair_code(u: usize, v: usize) -> int { u as int * 0x1_0000_0000_0000_0000 + v as int }
+pub open spec fn CODE_BOUND() -> int { 0x1_0000_0000_0000_0000int * 0x1_0000_0000_0000_0000int }
+
+pub type PredMap = Map<usize, FxHashSet<usize>>;
+
+/// every recorded predecessor is a transitive predecessor
+pub open spec fn preds_sound(es: Set<(usize, usize)>, pm: PredMap) -> bool {
+    forall|v: usize, u: usize| #![trigger pm[v]@.contains(u)] pm.contains_key(v) && pm[v]@.contains(u) ==> path_plus(es, u, v)
+}
+
+/// every direct predecessor is recorded
+pub open spec fn preds_direct(es: Set<(usize, usize)>, pm: PredMap) -> bool {
+    forall|u: usize, v: usize| #![trigger es.contains((u, v))] es.contains((u, v)) ==> pm.contains_key(v) && pm[v]@.contains(u)
+}
+
+/// pm extends pm0 pointwise
+pub open spec fn preds_mono(pm0: PredMap, pm: PredMap) -> bool {
+    &&& pm.dom() == pm0.dom()
+    &&& forall|v: usize, u: usize| #![trigger pm0[v]@.contains(u)] #![trigger pm[v]@.contains(u)] pm0.contains_key(v) && pm0[v]@.contains(u) ==> pm[v]@.contains(u)
+}
+
+/// the ghost set of codes mirrors the recorded pairs
+pub open spec fn codes_match(codes: Set<int>, pm: PredMap) -> bool {
+    &&& codes.subset_of(vstd::set_lib::set_int_range(0, CODE_BOUND()))
+    &&& forall|u: usize, v: usize| #![trigger codes.contains(pair_code(u, v))] codes.contains(pair_code(u, v)) <==> (pm.contains_key(v) && pm[v]@.contains(u))
+}
+
+/// the same while the set of vertex s is borrowed out of the map and currently has view sp
+pub open spec fn codes_match_upd(codes: Set<int>, pm: PredMap, s: usize, sp: Set<usize>) -> bool {
+    &&& codes.subset_of(vstd::set_lib::set_int_range(0, CODE_BOUND()))
+    &&& forall|u: usize, v: usize| #![trigger codes.contains(pair_code(u, v))] codes.contains(pair_code(u, v))
+            <==> (if v == s { sp.contains(u) } else { pm.contains_key(v) && pm[v]@.contains(u) })
+}
+
+/// x's set is propagated to all its successors, unless x is still queued
+pub open spec fn preds_propagated(es: Set<(usize, usize)>, pm: PredMap, queue: Seq<usize>) -> bool {
+    forall|x: usize, s: usize, u: usize| #![trigger es.contains((x, s)), pm[x]@.contains(u)]
+        es.contains((x, s)) && pm.contains_key(x) && pm[x]@.contains(u) && !queue.contains(x) ==> pm[s]@.contains(u)
+}
+
+pub proof fn lemma_codes_len(codes: Set<int>)
+    requires codes.subset_of(vstd::set_lib::set_int_range(0, CODE_BOUND())),
+    ensures codes.len() <= CODE_BOUND(),
+{
+    vstd::set_lib::lemma_int_range(0, CODE_BOUND());
+    vstd::set_lib::lemma_len_subset(codes, vstd::set_lib::set_int_range(0, CODE_BOUND()));
+}
+
+/// the initial set of codes: one per edge
+pub proof fn lemma_codes_of_edges(es: Set<(usize, usize)>, pm: PredMap) -> (codes: Set<int>)
+    requires
+        forall|u: usize, v: usize| #![trigger es.contains((u, v))] es.contains((u, v)) <==> (pm.contains_key(v) && pm[v]@.contains(u)),
+    ensures codes_match(codes, pm),
+{
+    let codes = es.map(|e: (usize, usize)| pair_code(e.0, e.1));
+    assert forall|c: int| codes.contains(c) implies vstd::set_lib::set_int_range(0, CODE_BOUND()).contains(c) by {
+        let e = choose|e: (usize, usize)| es.contains(e) && pair_code(e.0, e.1) == c;
+    }
+    assert forall|u: usize, v: usize| #![trigger codes.contains(pair_code(u, v))] codes.contains(pair_code(u, v)) <==> (pm.contains_key(v) && pm[v]@.contains(u)) by {
+        if codes.contains(pair_code(u, v)) {
+            let e = choose|e: (usize, usize)| es.contains(e) && pair_code(e.0, e.1) == pair_code(u, v);
+            assert(e.0 == u && e.1 == v);
+            assert(e == (u, v));
+        }
+        if pm.contains_key(v) && pm[v]@.contains(u) {
+            assert(es.contains((u, v)));
+        }
+    }
+    codes
+}
+
+/// at a fixpoint the recorded sets are exactly the transitive predecessors
+pub proof fn lemma_preds_complete(es: Set<(usize, usize)>, pm: PredMap, u: usize, v: usize)
+    requires
+        preds_direct(es, pm), preds_propagated(es, pm, Seq::<usize>::empty()), path_plus(es, u, v),
+        forall|a: usize, b: usize| #![trigger es.contains((a, b))] es.contains((a, b)) ==> pm.contains_key(a) && pm.contains_key(b),
+    ensures pm.contains_key(v) && pm[v]@.contains(u),
+{
+    lemma_path_plus_first(es, u, v);
+    let w = choose|w: usize| es.contains((u, w)) && path(es, w, v);
+    let f = |x: usize| pm.contains_key(x) && pm[x]@.contains(u);
+    assert(f(w));
+    assert forall|a: usize, b: usize| #![trigger es.contains((a, b))] f(a) && es.contains((a, b)) implies f(b) by {
+        assert(!Seq::<usize>::empty().contains(a));
+        assert(pm[a]@.contains(u));
+    }
+    lemma_path_closed(es, f, w, v);
+}
+
 impl<V, E> Graph<V, E>
 where
     V: Vertex,
@@ -672,6 +788,8 @@ where
 //@ rewrite 1 `let successors_are_acyclic = graph` => `let mut successors_are_acyclic = true; for successor in it: graph` ## R-all: `let b = ITER.all(|x| { P });` is by definition `let mut b = true; for x in ITER { if !{ P } { b = false; break; } }` (short-circuiting; part 1 of 3; ITER and P stay the original tokens; Verus has no model of a closure that captures `&mut` state and recurses)
 //@ rewrite 1 `.all(|successor| {` => `{ if !{` ## R-all: part 2 of 3
 //@ rewrite 1 `) });` => `) } { successors_are_acyclic = false; break; } }` ## R-all: part 3 of 3
+//@ rewrite 1 `dfs_is_acyclic(self,` => `let out__: bool = dfs_is_acyclic(self,` ## R-let-result: binds the result expression to a local (part 1 of 2) so that a proof block can follow it; evaluation unchanged
+//@ rewrite 1 `&mut temporary_marks) }` => `&mut temporary_marks); out__ }` ## R-let-result: part 2 of 2
 //@ spec
     requires self.graph_wf(), self.vertices@.contains_key(root),
     ensures
@@ -686,12 +804,6 @@ where
         lemma_disjoint_subsets_len(permanent_marks@, temporary_marks@, graph.vertices@.dom());
     }
 //@ loop 0
-    invariant
-        graph.graph_wf(), graph.vertices@.contains_key(node),
-        seq_lists_set_ref(it.seq(), graph.successors@[node]@),
-        !old(temporary_marks)@.contains(node), !old(permanent_marks)@.contains(node),
-        forall|t: usize| #![trigger old(temporary_marks)@.contains(t)] old(temporary_marks)@.contains(t) ==> path_plus(graph.edges@.dom(), t, node),
-        old(permanent_marks)@.len() + old(temporary_marks)@.len() + 1 <= graph.vertices@.dom().len(),
     invariant_except_break
         successors_are_acyclic,
         acy_inv(graph.vertices@.dom(), graph.edges@.dom(), permanent_marks@, temporary_marks@),
@@ -699,6 +811,12 @@ where
         old(permanent_marks)@.subset_of(permanent_marks@),
         forall|j: int| 0 <= j < it.index@ ==> permanent_marks@.contains(*#[trigger] it.seq()[j]),
         forall|w: usize| #![trigger graph.edges@.contains_key((node, w))] it.index@ == it.seq().len() && graph.edges@.contains_key((node, w)) ==> permanent_marks@.contains(w),
+    invariant
+        graph.graph_wf(), graph.vertices@.contains_key(node),
+        seq_lists_set_ref(it.seq(), graph.successors@[node]@),
+        !old(temporary_marks)@.contains(node), !old(permanent_marks)@.contains(node),
+        forall|t: usize| #![trigger old(temporary_marks)@.contains(t)] old(temporary_marks)@.contains(t) ==> path_plus(graph.edges@.dom(), t, node),
+        old(permanent_marks)@.len() + old(temporary_marks)@.len() + 1 <= graph.vertices@.dom().len(),
     ensures
         successors_are_acyclic ==> acy_inv(graph.vertices@.dom(), graph.edges@.dom(), permanent_marks@, temporary_marks@)
             && temporary_marks@ == old(temporary_marks)@.insert(node) && old(permanent_marks)@.subset_of(permanent_marks@)
@@ -751,9 +869,455 @@ where
             lemma_closed_no_path_out(es, pml, w, node);
         }
     }
-//@ before 0 `dfs_is_acyclic(self, root, &mut permanent_marks, &mut temporary_marks)`
+//@ before 0 `out__ }`
     proof {
-        assert(acy_inv(self.vertices@.dom(), self.edges@.dom(), permanent_marks@, temporary_marks@));
+        let es = self.edges@.dom();
+        if out__ {
+            let f = |v: usize| permanent_marks@.contains(v);
+            assert forall|v: usize| path(es, root, v) implies !path_plus(es, v, v) by {
+                lemma_path_closed(es, f, root, v);
+            }
+        } else {
+            let v = choose|v: usize| path(es, root, v) && #[trigger] path_plus(es, v, v);
+            assert(path(es, root, v) && path_plus(es, v, v));
+        }
+    }
+//@ end
+
+
+//@ fn impl<V, E> Graph<V, E> :: fn compute_dfs_tree loops=3
+//@ rewrite 2 `for &successor in` => `for successor__r in it:` ## R-ref-pattern: `for &x in ITER { BODY }` is `for x__r in ITER { let x = *x__r; BODY }` for Copy items (part 1 of 2; the iterator expressions stay the original tokens)
+//@ rewrite 1 `let mut stack = Vec::new();` => `let mut stack: Vec<(usize, usize)> = Vec::new();` ## R-type-annotation: spells out the type rustc infers for the local (needed because the spliced invariants mention the local before the statements that fix its type)
+//@ rewrite 1 `let mut tree = Graph::new();` => `let mut tree: Graph<NullVertex, NullEdge> = Graph::new();` ## R-type-annotation: spells out the inferred type of the local
+//@ rewrite 1 `{ stack.push((start_index, successor));` => `{ let successor = *successor__r; stack.push((start_index, successor));` ## R-ref-pattern: part 2 of 2 (first loop)
+//@ rewrite 1 `{ stack.push((index, successor));` => `{ let successor = *successor__r; stack.push((index, successor));` ## R-ref-pattern: part 2 of 2 (second loop)
+//@ spec
+    requires self.graph_wf(),
+    ensures
+        /*@missing*/ !self.vertices@.contains_key(start_index) ==> (r matches Err(e) && e == Error::GraphVertexNotFound(start_index)),
+        /*@ok*/ self.vertices@.contains_key(start_index) ==> r is Ok,
+        /*@tree*/ r matches Ok(t) ==> is_spanning_tree_of(&t, self.edges@.dom(), start_index),
+//@ after 0 `tree.insert_vertex(NullVertex::new(start_index))?;`
+    proof {
+        lemma_path_refl(self.edges@.dom(), start_index);
+        lemma_path_refl(tree.edges@.dom(), start_index);
+        assert(tree.vertices@.dom() =~= set![start_index]);
+    }
+//@ loop 0
+    invariant
+        self.graph_wf(), self.vertices@.contains_key(start_index),
+        seq_lists_set_ref(it.seq(), self.successors@[start_index]@),
+        tree_inv(&tree, self.vertices@.dom(), self.edges@.dom(), start_index),
+        tree.vertices@.dom() =~= set![start_index],
+        forall|k: int| 0 <= k < stack@.len() ==> (#[trigger] stack@[k]).0 == start_index && self.edges@.contains_key(stack@[k]),
+        forall|j: int| 0 <= j < it.index@ ==> stack@.contains((start_index, *#[trigger] it.seq()[j])),
+        forall|b: usize| #![trigger self.edges@.contains_key((start_index, b))] it.index@ == it.seq().len() && self.edges@.contains_key((start_index, b)) ==> stack@.contains((start_index, b)),
+//@ before 0 `stack.push((start_index, successor));`
+    let ghost st0 = stack@;
+    proof {
+        lemma_seq_lists_set_ref(it.seq(), self.successors@[start_index]@);
+        assert(self.successors@[start_index]@.contains(successor));
+        assert(self.edges@.contains_key((start_index, successor)));
+        lemma_push_contains(st0, (start_index, successor));
+    }
+//@ after 0 `stack.push((start_index, successor));`
+    proof {
+        assert(stack@ =~= st0.push((start_index, successor)));
+        assert forall|k: int| 0 <= k < stack@.len() implies (#[trigger] stack@[k]).0 == start_index && self.edges@.contains_key(stack@[k]) by {
+            if k < st0.len() { assert(stack@[k] == st0[k]); }
+        }
+        assert forall|b: usize| #![trigger self.edges@.contains_key((start_index, b))] it.index@ + 1 == it.seq().len() && self.edges@.contains_key((start_index, b)) implies stack@.contains((start_index, b)) by {
+            assert(self.successors@[start_index]@.contains(b));
+            let j = choose|j: int| 0 <= j < it.seq().len() && *#[trigger] it.seq()[j] == b;
+            if j < it.index@ { assert(st0.contains((start_index, *it.seq()[j]))); }
+        }
+    }
+//@ before 0 `while let Some((pred, index))`
+    let ghost mut gs: Seq<(usize, usize)> = stack@;
+    proof {
+        vstd::set_lib::lemma_len_subset(tree.vertices@.dom(), self.vertices@.dom());
+        assert forall|a: usize, b: usize| #![trigger self.edges@.contains_key((a, b))]
+            tree.vertices@.contains_key(a) && self.edges@.contains_key((a, b)) implies tree.vertices@.contains_key(b) || stack@.contains((a, b)) by {
+            assert(a == start_index);
+        }
+    }
+//@ loop 1
+    invariant
+        gs == stack@,
+        self.graph_wf(), self.vertices@.contains_key(start_index),
+        tree_inv(&tree, self.vertices@.dom(), self.edges@.dom(), start_index),
+        forall|k: int| 0 <= k < stack@.len() ==> tree.vertices@.contains_key((#[trigger] stack@[k]).0) && self.edges@.contains_key(stack@[k]),
+        forall|a: usize, b: usize| #![trigger self.edges@.contains_key((a, b))]
+            tree.vertices@.contains_key(a) && self.edges@.contains_key((a, b)) ==> tree.vertices@.contains_key(b) || stack@.contains((a, b)),
+    ensures stack@.len() == 0,
+    decreases self.vertices@.dom().len() - tree.vertices@.dom().len(), stack@.len(),
+//@ before 0 `if tree.has_vertex(index)`
+    let ghost tree0 = tree;
+    proof {
+        assert(gs =~= stack@.push((pred, index)));
+        lemma_push_contains(stack@, (pred, index));
+        assert(gs[gs.len() - 1] == (pred, index));
+        assert(tree.vertices@.contains_key(pred) && self.edges@.contains_key((pred, index)));
+        assert(self.vertices@.contains_key(index));
+        assert forall|k: int| 0 <= k < stack@.len() implies tree.vertices@.contains_key((#[trigger] stack@[k]).0) && self.edges@.contains_key(stack@[k]) by {
+            assert(gs[k] == stack@[k]);
+        }
+        vstd::set_lib::lemma_len_subset(tree.vertices@.dom(), self.vertices@.dom());
+        vstd::set_lib::lemma_len_subset(tree.vertices@.dom().insert(index), self.vertices@.dom());
+    }
+//@ before 0 `continue;`
+    proof { gs = stack@; }
+//@ after 0 `tree.insert_edge(NullEdge::new(pred, index))?;`
+    proof {
+        let es = self.edges@.dom();
+        assert(tree0.graph_wf());
+        // index was not a tree vertex, so no tree edge touched it
+        assert(!tree0.edges@.contains_key((pred, index)));
+        assert(tree.vertices@.dom() =~= tree0.vertices@.dom().insert(index));
+        assert(tree.edges@.dom() =~= tree0.edges@.dom().insert((pred, index)));
+        assert(tree0.edges@.dom().subset_of(tree.edges@.dom()));
+        lemma_path_step(es, start_index, pred, index);
+        assert forall|v: usize| #![trigger tree.vertices@.contains_key(v)] tree.vertices@.contains_key(v) implies path(tree.edges@.dom(), start_index, v) by {
+            if v == index {
+                lemma_path_mono(tree0.edges@.dom(), tree.edges@.dom(), start_index, pred);
+                lemma_path_step(tree.edges@.dom(), start_index, pred, index);
+            } else {
+                lemma_path_mono(tree0.edges@.dom(), tree.edges@.dom(), start_index, v);
+            }
+        }
+        assert(tree.predecessors@[index]@ =~= set![pred]);
+        assert forall|v: usize| #![trigger tree.predecessors@[v]] tree.vertices@.contains_key(v) && v != start_index implies tree.predecessors@[v]@.len() == 1 by {
+            if v != index {
+                assert(tree.predecessors@[v] == tree0.predecessors@[v]);
+            }
+        }
+        assert(tree.predecessors@[start_index] == tree0.predecessors@[start_index]);
+    }
+//@ loop 2
+    invariant
+        self.graph_wf(), self.vertices@.contains_key(start_index), self.vertices@.contains_key(index),
+        seq_lists_set_ref(it.seq(), self.successors@[index]@),
+        tree_inv(&tree, self.vertices@.dom(), self.edges@.dom(), start_index),
+        tree.vertices@.dom() == tree0.vertices@.dom().insert(index), !tree0.vertices@.contains_key(index),
+        forall|k: int| 0 <= k < stack@.len() ==> tree.vertices@.contains_key((#[trigger] stack@[k]).0) && self.edges@.contains_key(stack@[k]),
+        forall|a: usize, b: usize| #![trigger self.edges@.contains_key((a, b))]
+            tree.vertices@.contains_key(a) && a != index && self.edges@.contains_key((a, b)) ==> tree.vertices@.contains_key(b) || stack@.contains((a, b)),
+        forall|j: int| 0 <= j < it.index@ ==> stack@.contains((index, *#[trigger] it.seq()[j])),
+        forall|b: usize| #![trigger self.edges@.contains_key((index, b))] it.index@ == it.seq().len() && self.edges@.contains_key((index, b)) ==> stack@.contains((index, b)),
+//@ before 0 `stack.push((index, successor));`
+    let ghost st0 = stack@;
+    proof {
+        lemma_seq_lists_set_ref(it.seq(), self.successors@[index]@);
+        assert(self.successors@[index]@.contains(successor));
+        assert(self.edges@.contains_key((index, successor)));
+        lemma_push_contains(st0, (index, successor));
+    }
+//@ after 0 `stack.push((index, successor));`
+    proof {
+        assert(stack@ =~= st0.push((index, successor)));
+        assert forall|k: int| 0 <= k < stack@.len() implies tree.vertices@.contains_key((#[trigger] stack@[k]).0) && self.edges@.contains_key(stack@[k]) by {
+            if k < st0.len() { assert(stack@[k] == st0[k]); }
+        }
+        assert forall|b: usize| #![trigger self.edges@.contains_key((index, b))] it.index@ + 1 == it.seq().len() && self.edges@.contains_key((index, b)) implies stack@.contains((index, b)) by {
+            assert(self.successors@[index]@.contains(b));
+            let j = choose|j: int| 0 <= j < it.seq().len() && *#[trigger] it.seq()[j] == b;
+            if j < it.index@ { assert(st0.contains((index, *it.seq()[j]))); }
+        }
+    }
+//@ after 0 `stack.push((index, successor)); }`
+    proof { gs = stack@; }
+//@ before 0 `Ok(tree)`
+    proof {
+        let es = self.edges@.dom();
+        let f = |v: usize| tree.vertices@.contains_key(v);
+        assert forall|a: usize, b: usize| #![trigger es.contains((a, b))] f(a) && es.contains((a, b)) implies f(b) by {
+            assert(self.edges@.contains_key((a, b)));
+            assert(!stack@.contains((a, b)));
+        }
+        assert forall|v: usize| path(es, start_index, v) implies #[trigger] tree.vertices@.contains_key(v) by {
+            lemma_path_closed(es, f, start_index, v);
+        }
+    }
+//@ end
+
+
+//@ fn impl<V, E> Graph<V, E> :: fn compute_predecessors loops=5
+//@ rewrite 1 `for vertex in &self.vertices {` => `for vertex in it: &self.vertices {` ## R-ghost-iter-name: names the ghost iterator of the for loop; no executable change
+//@ rewrite 1 `let mut preds = FxHashSet::default();` => `let mut preds: FxHashSet<usize> = FxHashSet::default();` ## R-type-annotation: spells out the inferred type of the local
+//@ rewrite 1 `for predecessor in &self.predecessors[vertex.0] {` => `for predecessor in it2: &self.predecessors[vertex.0] {` ## R-ghost-iter-name: names the ghost iterator of the for loop; no executable change
+//@ rewrite 1 `for successor_index in &self` => `for successor_index in it: &self` ## R-ghost-iter-name: names the ghost iterator of the for loop; no executable change
+//@ rewrite 1 `for predecessor in &this_predecessors {` => `for predecessor in it2: &this_predecessors {` ## R-ghost-iter-name: names the ghost iterator of the for loop; no executable change
+//@ rewrite 1 `changed |= successor_predecessors.insert(*predecessor);` => `{ let ins__ = successor_predecessors.insert(*predecessor); changed = changed || ins__; }` ## R-bool-or-assign: `a |= E` on bools evaluates E and then ors it into a (no short-circuit) = `{ let t = E; a = a || t; }` (Verus has no `|` on bools)
+//@ spec
+    requires self.graph_wf(),
+    ensures
+        /*@ok*/ r is Ok,
+        /*@keys*/ r matches Ok(m) ==> m@.dom() == self.vertices@.dom(),
+        /*@exact*/ r matches Ok(m) ==> forall|v: usize, u: usize| #![trigger m@[v]@.contains(u)] self.vertices@.contains_key(v) ==>
+            (m@[v]@.contains(u) <==> path_plus(self.edges@.dom(), u, v)),
+//@ loop 0
+    invariant
+        self.graph_wf(),
+        seq_lists_map(it.seq(), self.vertices@),
+        forall|k: usize| #![trigger predecessors@.contains_key(k)] predecessors@.contains_key(k) ==> self.vertices@.contains_key(k) && predecessors@[k]@ == self.predecessors@[k]@,
+        forall|j: int| 0 <= j < it.index@ ==> predecessors@.contains_key(*(#[trigger] it.seq()[j]).0) && queue@.contains(*it.seq()[j].0),
+        forall|i: int| 0 <= i < queue@.len() ==> self.vertices@.contains_key(#[trigger] queue@[i]),
+        forall|k: usize| #![trigger self.vertices@.contains_key(k)] it.index@ == it.seq().len() && self.vertices@.contains_key(k) ==> predecessors@.contains_key(k) && queue@.contains(k),
+//@ before 0 `let mut preds: FxHashSet<usize>`
+    proof {
+        assert(self.vertices@.contains_pair(*vertex.0, *vertex.1));
+    }
+//@ loop 1
+    invariant
+        self.graph_wf(), self.vertices@.contains_key(*vertex.0),
+        seq_lists_set_ref(it2.seq(), self.predecessors@[*vertex.0]@),
+        forall|u: usize| #![trigger preds@.contains(u)] preds@.contains(u) ==> self.predecessors@[*vertex.0]@.contains(u),
+        forall|j: int| 0 <= j < it2.index@ ==> preds@.contains(*#[trigger] it2.seq()[j]),
+        it2.index@ == it2.seq().len() ==> preds@ =~= self.predecessors@[*vertex.0]@,
+//@ before 0 `preds.insert(*predecessor);`
+    proof { lemma_seq_lists_set_ref(it2.seq(), self.predecessors@[*vertex.0]@); }
+//@ after 0 `preds.insert(*predecessor);`
+    proof {
+        assert forall|u: usize| it2.index@ + 1 == it2.seq().len() && self.predecessors@[*vertex.0]@.contains(u) implies #[trigger] preds@.contains(u) by {
+            let j = choose|j: int| 0 <= j < it2.seq().len() && *#[trigger] it2.seq()[j] == u;
+        }
+    }
+//@ before 0 `predecessors.insert(*vertex.0, preds);`
+    let ghost q0 = queue@;
+    let ghost pm0 = predecessors@;
+//@ after 0 `queue.push_back(*vertex.0);`
+    proof {
+        lemma_push_contains(q0, *vertex.0);
+        assert(queue@ =~= q0.push(*vertex.0));
+        lemma_seq_lists_map(it.seq(), self.vertices@);
+        assert forall|i: int| 0 <= i < queue@.len() implies self.vertices@.contains_key(#[trigger] queue@[i]) by {
+            if i < q0.len() { assert(queue@[i] == q0[i]); }
+        }
+        assert forall|k: usize| #![trigger self.vertices@.contains_key(k)] it.index@ + 1 == it.seq().len() && self.vertices@.contains_key(k) implies predecessors@.contains_key(k) && queue@.contains(k) by {
+            let j = choose|j: int| 0 <= j < it.seq().len() && *(#[trigger] it.seq()[j]).0 == k;
+            if j < it.index@ { assert(pm0.contains_key(*it.seq()[j].0) && q0.contains(*it.seq()[j].0)); }
+        }
+    }
+//@ before 0 `while let Some(vertex_index)`
+    let ghost mut gq: Seq<usize> = queue@;
+    let ghost mut codes: Set<int> = Set::empty();
+    proof {
+        let es = self.edges@.dom();
+        assert(predecessors@.dom() =~= self.vertices@.dom());
+        assert forall|u: usize, v: usize| #![trigger es.contains((u, v))] es.contains((u, v)) <==> (predecessors@.contains_key(v) && predecessors@[v]@.contains(u)) by {
+            assert(es.contains((u, v)) == self.edges@.contains_key((u, v)));
+            if predecessors@.contains_key(v) && predecessors@[v]@.contains(u) {
+                assert(self.predecessors@[v]@.contains(u));
+            }
+        }
+        codes = lemma_codes_of_edges(es, predecessors@);
+        assert forall|v: usize, u: usize| #![trigger predecessors@[v]@.contains(u)] predecessors@.contains_key(v) && predecessors@[v]@.contains(u) implies path_plus(es, u, v) by {
+            assert(es.contains((u, v)));
+            lemma_path_edge(es, u, v);
+        }
+        lemma_codes_len(codes);
+    }
+//@ loop 2
+    invariant
+        gq == queue@,
+        self.graph_wf(),
+        predecessors@.dom() == self.vertices@.dom(),
+        preds_sound(self.edges@.dom(), predecessors@),
+        preds_direct(self.edges@.dom(), predecessors@),
+        preds_propagated(self.edges@.dom(), predecessors@, queue@),
+        forall|i: int| 0 <= i < queue@.len() ==> self.vertices@.contains_key(#[trigger] queue@[i]),
+        codes_match(codes, predecessors@),
+    ensures queue@.len() == 0,
+    decreases CODE_BOUND() - codes.len(), queue@.len(),
+//@ before 0 `let this_predecessors =`
+    let ghost pmw = predecessors@;
+    let ghost q1 = queue@;
+    let ghost codesw = codes;
+    proof {
+        assert(gq =~= seq![vertex_index] + q1);
+        assert(gq[0] == vertex_index);
+        lemma_drop_first_contains(gq);
+        assert(gq.subrange(1, gq.len() as int) =~= q1);
+        assert(self.vertices@.contains_key(vertex_index));
+        assert forall|i: int| 0 <= i < q1.len() implies self.vertices@.contains_key(#[trigger] q1[i]) by {
+            assert(gq[i + 1] == q1[i]);
+        }
+        lemma_codes_len(codes);
+    }
+//@ loop 3
+    invariant
+        self.graph_wf(), self.vertices@.contains_key(vertex_index),
+        seq_lists_set_ref(it.seq(), self.successors@[vertex_index]@),
+        this_predecessors@ == pmw[vertex_index]@,
+        pmw.dom() == self.vertices@.dom(),
+        preds_sound(self.edges@.dom(), pmw), preds_direct(self.edges@.dom(), pmw), preds_propagated(self.edges@.dom(), pmw, gq),
+        forall|a: usize| #![trigger gq.contains(a)] gq.contains(a) <==> (a == vertex_index || q1.contains(a)),
+        preds_mono(pmw, predecessors@),
+        preds_sound(self.edges@.dom(), predecessors@),
+        predecessors@[vertex_index]@ =~= this_predecessors@,
+        forall|j: int| 0 <= j < it.index@ ==> this_predecessors@.subset_of(predecessors@[*#[trigger] it.seq()[j]]@),
+        forall|s: usize| #![trigger self.edges@.contains_key((vertex_index, s))] it.index@ == it.seq().len() && self.edges@.contains_key((vertex_index, s)) ==> this_predecessors@.subset_of(predecessors@[s]@),
+        forall|y: usize| #![trigger predecessors@[y]] self.vertices@.contains_key(y) ==> predecessors@[y]@ =~= pmw[y]@ || queue@.contains(y),
+        forall|a: usize| #![trigger q1.contains(a)] q1.contains(a) ==> queue@.contains(a),
+        forall|i: int| 0 <= i < queue@.len() ==> self.vertices@.contains_key(#[trigger] queue@[i]),
+        codes_match(codes, predecessors@),
+        codesw.subset_of(codes),
+        codes.len() == codesw.len() ==> queue@ == q1,
+//@ before 0 `let successor_predecessors =`
+    let ghost pma = predecessors@;
+    let ghost codesa = codes;
+    let ghost s = *successor_index;
+    proof {
+        let es = self.edges@.dom();
+        lemma_seq_lists_set_ref(it.seq(), self.successors@[vertex_index]@);
+        assert(self.successors@[vertex_index]@.contains(s));
+        assert(self.edges@.contains_key((vertex_index, s)));
+        assert(self.vertices@.contains_key(s));
+        lemma_path_edge(es, vertex_index, s);
+        assert forall|u: usize| #![trigger this_predecessors@.contains(u)] this_predecessors@.contains(u) implies path_plus(es, u, s) by {
+            assert(pmw[vertex_index]@.contains(u));
+            lemma_path_plus_trans_l(es, u, vertex_index, s);
+        }
+    }
+//@ loop 4
+    invariant
+        seq_lists_set_ref(it2.seq(), this_predecessors@),
+        forall|u: usize| #![trigger this_predecessors@.contains(u)] this_predecessors@.contains(u) ==> path_plus(self.edges@.dom(), u, s),
+        pma.contains_key(s), s == *successor_index,
+        pma[s]@.subset_of(successor_predecessors@),
+        forall|u: usize| #![trigger successor_predecessors@.contains(u)] successor_predecessors@.contains(u) ==> pma[s]@.contains(u) || this_predecessors@.contains(u),
+        forall|j: int| 0 <= j < it2.index@ ==> successor_predecessors@.contains(*#[trigger] it2.seq()[j]),
+        it2.index@ == it2.seq().len() ==> this_predecessors@.subset_of(successor_predecessors@),
+        !changed ==> successor_predecessors@ =~= pma[s]@ && codes == codesa,
+        changed ==> codes.len() > codesa.len(),
+        codesa.subset_of(codes),
+        codes_match_upd(codes, pma, s, successor_predecessors@),
+//@ before 0 `let ins__ = successor_predecessors.insert(*predecessor);`
+    let ghost sp0 = successor_predecessors@;
+    let ghost codes0 = codes;
+    proof { lemma_seq_lists_set_ref(it2.seq(), this_predecessors@); }
+//@ after 0 `changed = changed || ins__;`
+    proof {
+        if ins__ {
+            let c = pair_code(*predecessor, s);
+            assert(!codes0.contains(c));
+            codes = codes0.insert(c);
+            assert(vstd::set_lib::set_int_range(0, CODE_BOUND()).contains(c));
+            vstd::set_lib::lemma_len_subset(codesa, codes0);
+            assert forall|u: usize, v: usize| #![trigger codes.contains(pair_code(u, v))] codes.contains(pair_code(u, v))
+                <==> (if v == s { successor_predecessors@.contains(u) } else { pma.contains_key(v) && pma[v]@.contains(u) }) by {
+                if pair_code(u, v) == c { assert(u == *predecessor && v == s); }
+                assert(codes0.contains(pair_code(u, v)) <==> (if v == s { sp0.contains(u) } else { pma.contains_key(v) && pma[v]@.contains(u) }));
+            }
+        }
+        assert forall|u: usize| it2.index@ + 1 == it2.seq().len() && this_predecessors@.contains(u) implies #[trigger] successor_predecessors@.contains(u) by {
+            let j = choose|j: int| 0 <= j < it2.seq().len() && *#[trigger] it2.seq()[j] == u;
+            if j < it2.index@ { assert(sp0.contains(*it2.seq()[j])); }
+        }
+    }
+//@ before 0 `if changed { queue.push_back(*successor_index); }`
+    let ghost qb = queue@;
+    proof {
+        let es = self.edges@.dom();
+        // the borrow has ended: the map is pma with the set of s replaced
+        assert(predecessors@.dom() == pma.dom());
+        assert forall|v: usize| #![trigger predecessors@[v]] pma.contains_key(v) && v != s implies predecessors@[v] == pma[v] by {
+            assert(!vstd::std_specs::hash::contains_borrowed_key(Map::<usize, ()>::empty().insert(v, ()), successor_index)) by {
+                assert(!Map::<usize, ()>::empty().insert(v, ()).contains_key(s));
+            }
+        }
+        assert(codes_match(codes, predecessors@)) by {
+            assert forall|u: usize, v: usize| #![trigger codes.contains(pair_code(u, v))] codes.contains(pair_code(u, v)) <==> (predecessors@.contains_key(v) && predecessors@[v]@.contains(u)) by {
+                if v != s && pma.contains_key(v) { assert(predecessors@[v] == pma[v]); }
+            }
+        }
+        assert(preds_mono(pmw, predecessors@)) by {
+            assert forall|v: usize, u: usize| #![trigger pmw[v]@.contains(u)] #![trigger predecessors@[v]@.contains(u)] pmw.contains_key(v) && pmw[v]@.contains(u) implies predecessors@[v]@.contains(u) by {
+                assert(pma[v]@.contains(u));
+                if v != s { assert(predecessors@[v] == pma[v]); }
+            }
+        }
+        assert(preds_sound(es, predecessors@)) by {
+            assert forall|v: usize, u: usize| #![trigger predecessors@[v]@.contains(u)] predecessors@.contains_key(v) && predecessors@[v]@.contains(u) implies path_plus(es, u, v) by {
+                if v != s { assert(predecessors@[v] == pma[v]); assert(pma[v]@.contains(u)); }
+                else if !pma[s]@.contains(u) { assert(this_predecessors@.contains(u)); }
+            }
+        }
+        // the set of vertex_index itself did not change (a self-loop only re-adds its own elements)
+        assert(predecessors@[vertex_index]@ =~= this_predecessors@) by {
+            if vertex_index != s { assert(predecessors@[vertex_index] == pma[vertex_index]); }
+        }
+        vstd::set_lib::lemma_len_subset(codesw, codesa);
+    }
+//@ after 0 `if changed { queue.push_back(*successor_index); }`
+    proof {
+        lemma_push_contains(qb, s);
+        if changed { assert(queue@ =~= qb.push(s)); }
+        assert forall|i: int| 0 <= i < queue@.len() implies self.vertices@.contains_key(#[trigger] queue@[i]) by {
+            if i < qb.len() { assert(queue@[i] == qb[i]); }
+        }
+        assert forall|y: usize| #![trigger predecessors@[y]] self.vertices@.contains_key(y) implies predecessors@[y]@ =~= pmw[y]@ || queue@.contains(y) by {
+            if y != s {
+                assert(predecessors@[y] == pma[y]);
+                assert(pma[y]@ =~= pmw[y]@ || qb.contains(y));
+            } else if !changed {
+                assert(pma[s]@ =~= pmw[s]@ || qb.contains(s));
+            }
+        }
+        assert forall|j: int| 0 <= j < it.index@ + 1 implies this_predecessors@.subset_of(predecessors@[*#[trigger] it.seq()[j]]@) by {
+            let t = *it.seq()[j];
+            if j < it.index@ {
+                assert(this_predecessors@.subset_of(pma[t]@));
+                if t != s { assert(predecessors@[t] == pma[t]); }
+            }
+        }
+        assert forall|s2: usize| #![trigger self.edges@.contains_key((vertex_index, s2))] it.index@ + 1 == it.seq().len() && self.edges@.contains_key((vertex_index, s2)) implies this_predecessors@.subset_of(predecessors@[s2]@) by {
+            assert(self.successors@[vertex_index]@.contains(s2));
+            let j = choose|j: int| 0 <= j < it.seq().len() && *#[trigger] it.seq()[j] == s2;
+        }
+    }
+//@ after 0 `if changed { queue.push_back(*successor_index); } }`
+    proof {
+        let es = self.edges@.dom();
+        // re-establish the while invariant
+        assert(preds_direct(es, predecessors@)) by {
+            assert forall|u: usize, v: usize| #![trigger es.contains((u, v))] es.contains((u, v)) implies predecessors@.contains_key(v) && predecessors@[v]@.contains(u) by {
+                assert(pmw.contains_key(v) && pmw[v]@.contains(u));
+            }
+        }
+        assert(preds_propagated(es, predecessors@, queue@)) by {
+            assert forall|x: usize, s2: usize, u: usize| #![trigger es.contains((x, s2)), predecessors@[x]@.contains(u)]
+                es.contains((x, s2)) && predecessors@.contains_key(x) && predecessors@[x]@.contains(u) && !queue@.contains(x) implies predecessors@[s2]@.contains(u) by {
+                assert(self.edges@.contains_key((x, s2)));
+                if x == vertex_index {
+                    assert(this_predecessors@.contains(u));
+                    assert(this_predecessors@.subset_of(predecessors@[s2]@));
+                } else {
+                    assert(!q1.contains(x));
+                    assert(!gq.contains(x));
+                    assert(predecessors@[x]@ =~= pmw[x]@);
+                    assert(pmw[x]@.contains(u));
+                    assert(pmw[s2]@.contains(u));
+                }
+            }
+        }
+        vstd::set_lib::lemma_len_subset(codesw, codes);
+        lemma_codes_len(codes);
+        gq = queue@;
+    }
+//@ before 0 `Ok(predecessors)`
+    proof {
+        let es = self.edges@.dom();
+        assert(queue@ =~= Seq::<usize>::empty());
+        assert forall|v: usize, u: usize| #![trigger predecessors@[v]@.contains(u)] self.vertices@.contains_key(v) implies
+            (predecessors@[v]@.contains(u) <==> path_plus(es, u, v)) by {
+            if path_plus(es, u, v) {
+                assert forall|a: usize, b: usize| #![trigger es.contains((a, b))] es.contains((a, b)) implies predecessors@.contains_key(a) && predecessors@.contains_key(b) by {
+                    assert(self.edges@.contains_key((a, b)));
+                }
+                lemma_preds_complete(es, predecessors@, u, v);
+            }
+        }
     }
 //@ end
 
